@@ -1144,6 +1144,10 @@ class RpcServer:
                 try:
                     result = getattr(self._impl, info.name)(**kwargs)
                     _validate_result(info.name, result, info.result_type)
+                    # A value the declared result type cannot hold (an int beyond
+                    # int64, say) fails while the batch is built: that is the
+                    # method's error too, not a reason to abandon the connection.
+                    _write_result_batch(writer, info.result_schema, result, self._external_config, shm=shm)
                 except Exception as exc:
                     _hook_exc = exc
                     status = "error"
@@ -1151,7 +1155,6 @@ class RpcServer:
                     error_message = str(exc)
                     _write_error_batch(writer, schema, exc, server_id=self._server_id)
                     return
-                _write_result_batch(writer, info.result_schema, result, self._external_config, shm=shm)
         finally:
             duration_ms = (time.monotonic() - start) * 1000
             _emit_access_log(
@@ -1211,8 +1214,12 @@ class RpcServer:
             # other initialization error.
             if not isinstance(result, Stream):
                 raise TypeError(f"Method '{info.name}' must return a Stream, got {type(result).__name__}")
-            if info.header_type is not None and result.header is None:
-                raise TypeError(f"Method '{info.name}' declares header type but returned header=None")
+            if info.header_type is not None:
+                if result.header is None:
+                    raise TypeError(f"Method '{info.name}' declares header type but returned header=None")
+                # A header holding a value its declared type cannot represent fails
+                # to serialize; find that out while it can still be reported.
+                result.header._serialize()
         except Exception as exc:
             _hook_exc = exc
             status = "error"
